@@ -41,6 +41,7 @@ type thread struct {
 	panicV  any
 	stack   string
 	exiting bool
+	site    string // function containing the go statement that started the thread
 }
 
 // PointRec records one choice point of an execution.
@@ -59,6 +60,7 @@ type Timer struct {
 	fire   func()
 	name   string
 	active bool
+	late   bool // never fired before quiescence (harness waits)
 }
 
 // Result describes a finished execution.
@@ -170,6 +172,20 @@ func ThreadCount() int {
 	return len(s.threads)
 }
 
+// AliveSites returns "name @site" of the unfinished threads started by go statements.
+func AliveSites() []string {
+	var out []string
+	if s == nil {
+		return out
+	}
+	for _, t := range s.threads {
+		if !t.done && strings.HasPrefix(t.name, "go#") {
+			out = append(out, t.name+" @"+t.site)
+		}
+	}
+	return out
+}
+
 // Alive returns the names of threads that have not finished.
 func Alive() []string {
 	var out []string
@@ -238,7 +254,23 @@ func (sc *sched) spawn(name string, parent int, f func()) *thread {
 
 // Go starts a new virtual thread (the rewritten form of a go statement).
 func Go(f func()) {
+	site := ""
+	if s != nil {
+		if pc, _, _, ok := runtime.Caller(1); ok {
+			if fn := runtime.FuncForPC(pc); fn != nil {
+				site = fn.Name()
+				if i := strings.LastIndexByte(site, '/'); i >= 0 {
+					site = site[i+1:]
+				}
+			}
+		}
+	}
 	GoNamed("go", f)
+	if s != nil && site != "" && len(s.threads) > 0 {
+		if t := s.threads[len(s.threads)-1]; strings.HasPrefix(t.name, "go#") && t.site == "" {
+			t.site = site
+		}
+	}
 }
 
 // GoNamed starts a named virtual thread.
@@ -333,7 +365,11 @@ func (sc *sched) schedule(self *thread) {
 			for _, t := range sc.threads {
 				if !t.done {
 					all = false
-					sc.res.Blocked = append(sc.res.Blocked, t.name+": "+t.pending.Kind+" "+t.pending.Obj)
+					b := t.name + ": " + t.pending.Kind + " " + t.pending.Obj
+					if t.site != "" {
+						b += " @" + t.site
+					}
+					sc.res.Blocked = append(sc.res.Blocked, b)
 				}
 			}
 			if !all && !sc.res.HorizonHit {
@@ -500,11 +536,20 @@ func (sc *sched) nextTimer() *Timer {
 
 // earlyTimer returns the earliest pending timer that may be fired as a deviation.
 func (sc *sched) earlyTimer() *Timer {
-	tm := sc.nextTimer()
-	if tm == nil || (sc.opts.Horizon != 0 && tm.at > sc.opts.Horizon) {
+	sc.nextTimer() // drops inactive timers
+	var best *Timer
+	for _, tm := range sc.timers {
+		if !tm.active || tm.late {
+			continue
+		}
+		if best == nil || tm.at < best.at || (tm.at == best.at && tm.seq < best.seq) {
+			best = tm
+		}
+	}
+	if best == nil || (sc.opts.Horizon != 0 && best.at > sc.opts.Horizon) {
 		return nil
 	}
-	return tm
+	return best
 }
 
 func (sc *sched) fireTimer(tm *Timer) {
@@ -522,6 +567,18 @@ func Sleep(d time.Duration) {
 	}
 	woken := false
 	AddTimer(d, "sleep", func() { woken = true })
+	Point(&Op{Kind: "sleep", Enabled: func() bool { return woken }})
+}
+
+// SleepQuiescent is Sleep for harness threads: its timer is never fired early, so
+// the caller resumes at a moment when every other thread is blocked.
+func SleepQuiescent(d time.Duration) {
+	if s == nil {
+		return
+	}
+	woken := false
+	tm := AddTimer(d, "harness-sleep", func() { woken = true })
+	tm.late = true
 	Point(&Op{Kind: "sleep", Enabled: func() bool { return woken }})
 }
 
